@@ -179,7 +179,7 @@ func propC10(c feCase) hh.Verdict {
 		return hh.Fail("panic: %v", res.Panic)
 	}
 	got := res.Norm(false)
-	if !model.EqualIss(got, spec.Issues) {
+	if !model.EqualIssSpec(got, spec.Issues) {
 		return hh.Fail("issue paths/codes differ from the documented key chain [%s/%s]: got %s want %s", c.Mode, c.FE, fmtIss(got), fmtIss(spec.Issues))
 	}
 	if res.NoIssues() != (len(spec.Issues) == 0) {
